@@ -253,13 +253,23 @@ impl Walrus {
                     }
                 }
             } else {
-                // No persisted tail; init at current active block start
-                persisted_tail = Some((active_block.id, 0));
+                // No persisted tail; init at the position already consumed in the current
+                // active block (0 when nothing of it was consumed yet). Persisting 0 here
+                // would durably rewind a cursor that an earlier read had advanced.
+                let init_off = if info.tail_block_id == active_block.id {
+                    info.tail_offset
+                } else {
+                    0
+                };
+                persisted_tail = Some((active_block.id, init_off));
                 if checkpoint {
                     if self.should_persist(&mut info, true) {
                         if let Ok(mut idx_guard) = self.read_offset_index.write() {
-                            let _ =
-                                idx_guard.set(col_name.to_string(), active_block.id | TAIL_FLAG, 0);
+                            let _ = idx_guard.set(
+                                col_name.to_string(),
+                                active_block.id | TAIL_FLAG,
+                                init_off,
+                            );
                         }
                     }
                 }
